@@ -148,14 +148,31 @@ def run(ctx):
                     if R.random() < 0.3:
                         st["TO_TIMEZONE"] = "UTC"
                     jobs.append((R.choice(["parse", "gdd"]), s, {"languages": ["en"], "settings": st}, None)); expect.append(None)
+    # aware reference times (utc, fixed offsets, IANA zones) × every preference × strings that leave the date, the year or the time open
+    import datetime as _dt
+    import pytz as _pytz
+    aware_bases = [D(2020, 5, 17, 12, 0, tzinfo=_dt.timezone.utc), D(2021, 1, 1, 0, 30, tzinfo=_dt.timezone(_dt.timedelta(hours=5, minutes=30))),
+                   _pytz.timezone("America/New_York").localize(D(2019, 12, 31, 23, 45)), D(1, 1, 2, 0, 0, tzinfo=_dt.timezone.utc),
+                   D(9999, 12, 30, 23, 0, tzinfo=_dt.timezone(_dt.timedelta(hours=-8)))]
+    for b in aware_bases:
+        for s in ("10:30", "23:59:58", "5 pm", "at 3:15 am", "10:30 EST", "18:05 +0200", "friday", "friday 10:30", "March", "March 3", "10/12/25", "2 days ago", "in 3 hours", "1484823450"):
+            for pf in ("past", "future", "current_period"):
+                for tzs in ({}, {"TIMEZONE": "UTC"}, {"TIMEZONE": "Europe/Paris"}, {"TIMEZONE": "EST", "RETURN_AS_TIMEZONE_AWARE": True}):
+                    if tier == "quick" and R.random() < 0.5:
+                        continue
+                    st = dict(tzs, RELATIVE_BASE=b, PREFER_DATES_FROM=pf)
+                    jobs.append((R.choice(["parse", "gdd"]), s, {"languages": ["en"], "settings": st}, None)); expect.append(None)
     # invalid configuration / wrongly typed arguments: the documented exception, whatever the string
     bad_settings = [({"UNKNOWN": 1}, "SettingValidationError"), ({"DATE_ORDER": "XYZ"}, "SettingValidationError"), ({"STRICT_PARSING": "yes"}, "SettingValidationError"),
                     ({"PREFER_DATES_FROM": "yesterday"}, "SettingValidationError"), ({"REQUIRE_PARTS": ["hour"]}, "SettingValidationError"), ({"PARSERS": ["foo"]}, "SettingValidationError"),
                     ({"PARSERS": ["timestamp", "timestamp"]}, "SettingValidationError"), ({"RELATIVE_BASE": "now"}, "SettingValidationError"), ({"TIMEZONE": 5}, "SettingValidationError"),
                     ({"DEFAULT_LANGUAGES": ["xx"]}, "SettingValidationError"), ({"LANGUAGE_DETECTION_CONFIDENCE_THRESHOLD": 2.0}, "SettingValidationError"),
-                    ({"CACHE_SIZE_LIMIT": "1"}, "SettingValidationError"), ({"NORMALIZE": None}, "TypeError")]
+                    ({"CACHE_SIZE_LIMIT": "1"}, "SettingValidationError"), ({"NORMALIZE": None}, "TypeError"),
+                    # a timezone name nothing resolves (neither the tz database nor the library's table) is a wrong value
+                    ({"TIMEZONE": "Foo/Bar"}, "SettingValidationError"), ({"TO_TIMEZONE": "Mars/Olympus"}, "SettingValidationError"),
+                    ({"TIMEZONE": "UTC", "TO_TIMEZONE": "local"}, "SettingValidationError"), ({"TIMEZONE": "+2500x"}, "SettingValidationError")]
     for stb, kind in bad_settings:
-        for s in R.sample(strs, 3) + ["", "2015-01-01"]:
+        for s in R.sample(strs, 3) + ["", "2015-01-01", "10:30", "1 hour ago", "1484823450"]:
             jobs.append((R.choice(["parse", "gdd"]), s, {"settings": stb}, None)); expect.append(kind)
     for kw, kind in [({"languages": "en"}, "TypeError"), ({"locales": "en-AU"}, "TypeError"), ({"region": 5}, "TypeError"), ({"languages": ["xx"]}, "ValueError"),
                      ({"locales": ["en-XX"]}, "ValueError"), ({"locales": ["en-AU", "en-CA"]}, "ValueError"), ({"settings": "x"}, "TypeError")]:
